@@ -403,3 +403,57 @@ func decLateSweep(c *corr.Ctx) {
 	}
 	c.Dist("dec:late-join-sweep")
 }
+
+// decEnum: small-scope enumeration — every sequence of `length` packets over two tracks and the
+// timestamps at the wrap / sign boundaries (all interleavings, all step signs, refusals included).
+func decEnum(c *corr.Ctx) {
+	tss := []uint32{0, 1, 1<<31 - 1, 1 << 31, 1<<31 + 1, 1<<32 - 1}
+	length := 4
+	if !c.Quick() {
+		length = 5
+	}
+	type choice struct {
+		track int
+		ts    uint32
+		eq    bool
+	}
+	var choices []choice
+	for tr := 1; tr <= 2; tr++ {
+		for _, t := range tss {
+			choices = append(choices, choice{tr, t, true})
+		}
+	}
+	choices = append(choices, choice{1, 77, false}, choice{2, 1<<32 - 77, false})
+	total := 1
+	for i := 0; i < length; i++ {
+		total *= len(choices)
+	}
+	rates := [3]int{0, 90000, 8000}
+	for code := 0; code < total; code++ {
+		h := &DecHistory{Kind: "dec"}
+		x := code
+		last := map[int]uint32{}
+		started := map[int]bool{}
+		for i := 0; i < length; i++ {
+			ch := choices[x%len(choices)]
+			x /= len(choices)
+			op := DecOp{Track: ch.track, Rate: rates[ch.track], Eq: ch.eq, TS: ch.ts, Now: 1700000000000000000 + int64(i)*500000000}
+			if started[ch.track] {
+				// the intended step: the representative of the difference in (−2^31, 2^31]; 2^31 itself is
+				// outside the property's range (the oracle then only checks the accumulation clause)
+				dlt := int64(ch.ts - last[ch.track])
+				if dlt > 1<<31 {
+					dlt -= 1 << 32
+				}
+				op.Step = dlt
+				last[ch.track] = ch.ts
+			} else if ch.eq {
+				started[ch.track] = true
+				last[ch.track] = ch.ts
+			}
+			h.Ops = append(h.Ops, op)
+		}
+		decRun(c, h, fmt.Sprintf("dec-enum-%d", code))
+	}
+	c.Dist("dec:enumerated-small-scope")
+}
